@@ -393,6 +393,16 @@ def gen_genbank(rng, n):
                 for x in recs:
                     x["kind"], x["seq"] = recs[0]["kind"], gen_seq(rng, recs[0]["kind"], 1, 80)
             ops.append({"op": "multi_record", "records": recs, "medium": rng.choice(MEDIA)})
+        elif r < 0.972:
+            # the remaining typed getters of metadata.py read fields the caller put through the raw layer
+            acc = rng.choice(["AB000001", "NC_000913", "P12345"])
+            ops.append({"op": "typed_meta", "accession": acc, "version": acc + "." + str(rng.randint(1, 12)),
+                        "gi": rng.choice([None, 15, 1234567890]),
+                        "dblink": rng.sample([["BioProject", "PRJNA57779"], ["BioSample", "SAMN02604091"], ["Assembly", "GCF_000005845.2"]], rng.randint(1, 3)),
+                        "source": rng.choice(["Escherichia coli str. K-12 substr. MG1655", "synthetic construct", "Homo sapiens (human)"]),
+                        "definition": rng.sample(["Escherichia coli str. K-12", "substr. MG1655,", "complete genome."], rng.randint(1, 3)),
+                        "medium": rng.choice(MEDIA)})
+            size += 6
         elif r < 0.98:
             ops.append({"op": "typed_locus", "name": rng.choice(["AB000001", "seq", "NC_000913.3"]), "length": rng.choice([1, 1234, 4641652]),
                         "mol_type": rng.choice(["DNA", "mRNA", "ss-RNA", "Protein", None]), "circular": rng.random() < 0.5,
@@ -991,6 +1001,12 @@ class FastqSim(Base):
             return self.rejected(st, v, KeyError, "missing-key")
         if st == "exc" or v[0] != self.model[k][0] or [int(x) for x in v[1]] != self.model[k][1]:
             self.fail("model:get-differs", key=k, got=str(v)[:200])
+        # the two documented single-purpose getters agree with the mapping access
+        st, s2 = call(self.file.get_seq_string, k)
+        st2, q2 = call(self.file.get_quality, k)
+        if st == "exc" or st2 == "exc" or s2 != self.model[k][0] or [int(x) for x in q2] != self.model[k][1]:
+            self.fail("model:get-differs", key=k, what="get_seq_string/get_quality",
+                      got=[s2 if st == "ok" else exc_name(s2), str(q2)[:80] if st2 == "ok" else exc_name(q2)])
         return "ok"
 
     def op_protocol(self, op):
@@ -1508,6 +1524,39 @@ class GenBankSim(Base):
             self.res.stats["probe:multi-record-edited"] += 1
         self.readbacks += 1
         self.mutations += 1
+        self.res.stats["probe:typed-roundtrip"] += 1
+        return "ok"
+
+    def op_typed_meta(self, op):
+        from biotite.file import InvalidFileError
+        from biotite.sequence.io import genbank as gb
+
+        version = [op["version"] + ("" if op["gi"] is None else f"  GI:{op['gi']}")]
+        fields = [("DEFINITION", list(op["definition"])), ("ACCESSION", [op["accession"]]), ("VERSION", version),
+                  ("DBLINK", [f"{k}: {v}" for k, v in op["dblink"]]), ("SOURCE", [op["source"]])]
+        for name, content in fields:
+            self.drop_duplicates(name)
+            st, v = call(self.file.set_field, name, content)
+            if st == "exc":
+                self.fail("edit:set_field-raised", got=exc_name(v), msg=str(v)[:200], name=name)
+        self.resync()
+        self.mutations += 1
+        self.invariants("typed_meta")
+        new = self.restart_file(op["medium"])
+        exp = {"definition": " ".join(op["definition"]), "accession": op["accession"], "version": op["version"],
+               "db_link": {k: v for k, v in op["dblink"]}, "source": op["source"]}
+        for what, want in exp.items():
+            st, got = call(getattr(gb, "get_" + what), new)
+            if st == "exc" or got != want:
+                self.fail("typed:metadata-changed", what=what, got=got if st == "ok" else exc_name(got), expected=want)
+        st, got = call(gb.get_gi, new)
+        if op["gi"] is None:
+            if st == "ok" or not isinstance(got, InvalidFileError):
+                self.fail("typed:metadata-changed", what="gi", got=got if st == "ok" else exc_name(got), expected="InvalidFileError (no GI written)")
+        elif st == "exc" or got != op["gi"]:
+            self.fail("typed:metadata-changed", what="gi", got=got if st == "ok" else exc_name(got), expected=op["gi"])
+        self.file = new
+        self.readbacks += 1
         self.res.stats["probe:typed-roundtrip"] += 1
         return "ok"
 
